@@ -312,7 +312,8 @@ def odd_part(ck, only=None):
 
 FOREIGN_TARGETS = [("x86_64-apple-darwin", "_"), ("aarch64-apple-darwin", "_"), ("aarch64-unknown-linux-gnu", ""), ("i686-unknown-linux-gnu", ""), ("powerpc64-unknown-linux-gnu", "")]
 FOREIGN_H = ("#pragma once\nstruct P { int a; char b; };\nstatic inline int add(int x, int y) { return x + y; }\nstatic int twice(int x) { return 2 * x; }\n"
-             "static inline struct P mk(int a) { struct P p = { a, 1 }; return p; }\nstatic inline void sink(const struct P *p, double d) { (void)p; (void)d; }\nint external_fn(int);\n")
+             "static inline struct P mk(int a) { struct P p = { a, 1 }; return p; }\nstatic inline void sink(const struct P *p, double d) { (void)p; (void)d; }\nstatic inline unsigned long long wide(unsigned long long a, long b, unsigned long c, long long d) { return a + (unsigned long long)(b + (long)c + d); }\n"
+             "static inline long double ld(long double x, unsigned short s, signed char c) { return x + s + c; }\nint external_fn(int);\n")
 
 
 def foreign_part(ck, only=None):
@@ -322,7 +323,7 @@ def foreign_part(ck, only=None):
     prefix) must be that symbol."""
     wd = os.path.join(ck.wd, "foreign")
     os.makedirs(wd, exist_ok=True)
-    statics = ["add", "twice", "mk", "sink"]
+    statics = ["add", "twice", "mk", "sink", "wide", "ld"]
 
     def one(job):
         (t, prefix), suffix = job
@@ -345,9 +346,13 @@ def foreign_part(ck, only=None):
         bound = [f for f in statics if f in refs]
         if not os.path.exists(w + ".c"):
             return job, ("dangling" if bound else "no-bindings"), f"bindings declare {bound} but no wrapper source was written"
-        rc, _, err = common.clang(["-std=gnu11", "-w", f"--target={t}", "-c", w + ".c", "-o", os.path.join(d, "w.o")], cwd=d)
+        # every wrapper must have exactly the type of the function it wraps ON THAT TARGET (widths of long / long long differ)
+        wc = os.path.join(d, "w_checked.c")
+        asserts = "".join(f'_Static_assert(__builtin_types_compatible_p(__typeof__(&{f}{suf}), __typeof__(&{f})), "{f}: wrapper and function types differ");\n' for f in statics if f in refs)
+        open(wc, "w").write(open(w + ".c").read() + "\n" + asserts)
+        rc, _, err = common.clang(["-std=gnu11", "-w", f"--target={t}", "-c", wc, "-o", os.path.join(d, "w.o")], cwd=d)
         if rc != 0:
-            return job, "wrapper-does-not-compile", err[:200]
+            return job, "wrapper-does-not-compile", " ".join(re.findall(r"error: (.*)", err)[:2])[:300] or err[:200]
         nm = common.sh(["llvm-nm", "--defined-only", "-g", os.path.join(d, "w.o")]).stdout.decode()
         defined = {l.split()[-1] for l in nm.splitlines() if l.strip()}
         probs = []
@@ -461,6 +466,44 @@ def rerun_part(ck, only=None):
                     defined = nm_defined(os.path.join(d, "w.o"))
                     if defined != links:
                         bad = f"wrapper object defines {sorted(defined)} but the bindings of the last generation name {sorted(links)}"
+        if bad:
+            ck.violation(f"rerun history={jid}", {"rerun": jid, "why": bad})
+    # the header stays UNTOUCHED (same contents, same mtime) while an option that shapes the wrappers changes between the runs
+    optsteps = [("suffix-one", ["--wrap-static-fns-suffix", "__one"]), ("suffix-two", ["--wrap-static-fns-suffix", "__two"]), ("blocklist-bump", ["--blocklist-function", "bump"]),
+                ("allowlist-twice", ["--allowlist-function", "twice"]), ("define", ["--", "-DEXTRA_FN"]), ("plain", [])]
+    hdr = "#pragma once\n" + V["three"] + "#ifdef EXTRA_FN\nstatic inline int extra_fn(int v) { return v - 1; }\n#endif\n"
+    import itertools as _it
+    for a, b in _it.permutations(optsteps, 2):
+        jid = f"options:{a[0]}->{b[0]}"
+        if only and only.get("rerun") != jid:
+            continue
+        ck.count()
+        ck.nontriv(("rerun", jid))
+        d = os.path.join(wd, jid.replace("->", "_").replace(":", "_"))
+        os.makedirs(d, exist_ok=True)
+        hp, w = os.path.join(d, "api.h"), os.path.join(d, "w")
+        if os.path.exists(w + ".c"):
+            os.remove(w + ".c")
+        open(hp, "w").write(hdr)
+        os.utime(hp, (1_600_000_000, 1_600_000_000))   # older than anything written from now on
+        bad = None
+        for name, fl in (a, b):
+            pre = [x for x in fl if "--" not in fl or fl.index(x) < fl.index("--")]
+            post = fl[fl.index("--"):] if "--" in fl else []
+            p = subprocess.run([common.CLI, hp, "--experimental", "--wrap-static-fns", "--wrap-static-fns-path", w, "--no-layout-tests", "-o", os.path.join(d, "b.rs")] + pre + post,
+                               env=common.ENV, stdout=subprocess.PIPE, stderr=subprocess.PIPE, timeout=60)
+            if p.returncode != 0:
+                bad = f"generation {name} failed: {p.stderr.decode(errors='replace')[-200:]}"
+                break
+        if bad is None:
+            links = set(re.findall(r'link_name\s*=\s*"([^"]+)"', open(os.path.join(d, "b.rs")).read()))
+            rc, _, err = common.clang(["-std=gnu11", "-w", "-I", d, "-c", w + ".c", "-o", os.path.join(d, "w.o")] + (["-DEXTRA_FN"] if b[0] == "define" else []), cwd=d)
+            if rc != 0:
+                bad = "the wrapper source left on disk does not compile: " + err[:200]
+            else:
+                defined = nm_defined(os.path.join(d, "w.o"))
+                if defined != links:
+                    bad = f"wrapper object defines {sorted(defined)} but the bindings of the last generation name {sorted(links)}"
         if bad:
             ck.violation(f"rerun history={jid}", {"rerun": jid, "why": bad})
 
